@@ -14,6 +14,7 @@
   justifies).
 -/
 import Model.Alias
+import Proofs.Alias
 
 namespace Jl.C15
 open Jl Jl.Alias
@@ -31,5 +32,55 @@ theorem alloc_fresh {C : Type} (h : Heap C) (c : C) :
   refine ⟨rfl, rfl, fun a ha => ?_⟩
   have : a ≠ h.next := Nat.ne_of_lt ha
   simp [Heap.alloc, this]
+
+/-- A world made by the template builder satisfies the separation invariant. -/
+theorem builder_world_separated {C : Type} (cols : List (Bytes × C)) : Sep (initWorld cols) :=
+  sep_init cols
+
+/-- C15, the template: after ANY interleaving of row operations (create, clone, import in
+    place, set, drop — successful or not, whatever the contents) the prototype row object and
+    the content of its cells are what the builder made. -/
+theorem template_changes_only_through_builder {C : Type} (cols : List (Bytes × C)) (ops : List (Op C)) :
+    content (run (initWorld cols) ops).heap (run (initWorld cols) ops).proto =
+      cols.map fun e => (e.1, some e.2) :=
+  template_content_init cols ops
+
+/-- … hence what the template produces afterwards is unchanged: a row created after any
+    history has exactly the cloned content of the declared columns. -/
+theorem template_product_unchanged {C : Type} (cols : List (Bytes × C)) (ops : List (Op C)) (clone : C → C) :
+    ∃ r, (step (run (initWorld cols) ops) (.createEmpty clone)).rows = (run (initWorld cols) ops).rows ++ [r] ∧
+      content (step (run (initWorld cols) ops) (.createEmpty clone)).heap r =
+        cols.map fun e => (e.1, some (clone e.2)) :=
+  createEmpty_after_history cols ops clone
+
+/-- C15, the rows: a step changes the content of no live row other than the one it operates
+    on (in-place imports included). -/
+theorem other_rows_unchanged {C : Type} {w : World C} (h : Sep w) (op : Op C) {j : Nat} {rj : RowObj}
+    (hj : w.rows[j]? = some rj) (ht : op.target ≠ some j) :
+    content (step w op).heap rj = content w.heap rj :=
+  frame_content h op hj ht
+
+/-- … and over whole histories that do not touch row `j`. -/
+theorem other_rows_unchanged_history {C : Type} {w : World C} (h : Sep w) (ops : List (Op C))
+    {j : Nat} {rj : RowObj} (hj : w.rows[j]? = some rj) (hops : ∀ op ∈ ops, ¬ op.touches j) :
+    (run w ops).rows[j]? = some rj ∧ content (run w ops).heap rj = content w.heap rj :=
+  frame_run h ops hj hops
+
+/-- C15, clones: a cloned row can be modified at its top level (imports in place, sets)
+    without affecting its source. -/
+theorem clone_is_independent {C : Type} {w : World C} (h : Sep w) {i : Nat} {src : RowObj}
+    (hi : w.rows[i]? = some src) (clone : C → C) :
+    ∃ r, (step w (.cloneLive i clone)).rows = w.rows ++ [r] ∧
+      content (step w (.cloneLive i clone)).heap src = content w.heap src ∧
+      ∀ ops : List (Op C),
+        (∀ op ∈ ops, ∃ k f, op = .importKey w.rows.length k f ∨ op = .setKey w.rows.length k f) →
+        content (run (step w (.cloneLive i clone)) ops).heap src = content w.heap src := by
+  obtain ⟨r, h1, _, h3, _, h5⟩ := clone_independent h hi clone
+  exact ⟨r, h1, h3, fun ops hops => (h5 ops hops).2⟩
+
+/-! The property really depends on cloning: `Proofs.Alias.bad_createEmpty_breaks_template`
+    is a kernel-evaluated witness that, in the variant where CreateRowEmpty hands out the
+    prototype itself, an in-place import into the created row changes the template, and
+    `bad_createEmpty_not_sep` that the separation invariant is what fails there. -/
 
 end Jl.C15
